@@ -2,7 +2,7 @@
 (***************************************************************************)
 (* Conformance of the real high-level encoders with the encoder models     *)
 (* (spec -> code and code -> spec at once): harness/cmd/encdump enumerates  *)
-(* the state space of MC_PDFText / MC_AztecHL / MC_Code128 / MC_DM / MC_QREnc / MC_PDFDims - every string   *)
+(* the state space of MC_PDFText / MC_AztecHL / MC_Code128 / MC_DM / MC_QREnc / MC_PDFDims / MC_AztecSel - every string   *)
 (* up to a length bound over the model's representative alphabet - calls   *)
 (* the real pdf417.highlevelEncode / aztec.highlevelEncode /               *)
 (* code128.getCodeIndexList through the verif accessors and records what   *)
@@ -27,6 +27,7 @@ C == INSTANCE Code128Enc
 D == INSTANCE DMEnc
 Q == INSTANCE QREnc
 PD == INSTANCE PDFDims
+S == INSTANCE AztecSel
 
 Trace == ndJsonDeserialize("trace.ndjson")
 N == Len(Trace)
@@ -75,6 +76,15 @@ Tag(e) ==
             ELSE IF acc # PD!Admissible(e.m, e.k) THEN "hl-wrong"
             ELSE IF acc /\ ~(pad < e.cols /\ (e.m + 1 + e.k + pad = e.rows * e.cols \/ (e.rows = 2 /\ e.cols = 2 /\ e.m + 1 + e.k + pad <= 4))) THEN "hl-wrong"
             ELSE "drift"
+    [] e.sym = "azsel" ->    \* the size aztec.Encode chose (or its refusal) for payload e.content, p = <<percentage, layer request>>, given the recorded
+                             \* high-level bit stream (hln bits packed into the bytes hlb)
+         LET bits == SubSeq([i \in 1..e.hln |-> (e.hlb[((i - 1) \div 8) + 1] \div 2 ^ (7 - ((i - 1) % 8))) % 2], 1, e.hln)
+             d == S!Decode(bits, 12)
+         IN IF e.hln > 0 /\ ~(d.ok /\ d.out = e.content /\ d.used = e.hln) THEN "hl-wrong"
+            ELSE LET r == S!Select(bits, e.p[1], e.p[2])
+                 IN IF e.kind = "ok" /\ r.ok /\ e.w = S!SymbolSize(r.layers, r.compact) THEN ""
+                    ELSE IF e.kind = "error" /\ ~r.ok THEN ""
+                    ELSE "drift"
     [] OTHER -> "unknown-event"
 
 Step ==
